@@ -441,6 +441,26 @@ class Prop(object):
                 r.viol('precondition', {'kind': 'no-identity', 'op': name}, case, 'a key without any identity performed %s' % name)
             except Exception:
                 r.outcomes['no-identity:refused'] += 1
+        # the same with operations that would otherwise be possible: an RSA key decrypts what was encrypted to it, binds a subkey, names a revoker
+        rraw = K.raw('rsa2048a', K.T0)
+        lit0 = wire.packet(11, rmsg.literal_body('b', b'', 0, b'to a key without identity'))
+        skx = bytes(range(16))
+        encx = wire.packet(1, renc.pkesk_body(rraw, 7, skx)) + wire.packet(18, renc.seipd_encrypt(7, skx, lit0))
+        from pgpy.constants import KeyFlags as _KF
+        for name, fn in (('decrypt', lambda k: k.decrypt(pgpy.PGPMessage.from_blob(encx))),
+                         ('add_subkey', lambda k: k.add_subkey(K.pgpy_secret(K.raw('ed25519c', K.T0)), usage={_KF.Sign}, created=K.dt(K.T0 + 7))),
+                         ('bind', lambda k: k.bind(K.pgpy_secret(K.raw('cv25519a', K.T0)), usage={_KF.EncryptCommunications}, created=K.dt(K.T0 + 7))),
+                         ('revoker', lambda k: k.revoker(other, created=K.dt(K.T0 + 7))), ('sign', lambda k: k.sign(b'x', created=K.dt(K.T0 + 7))),
+                         ('revoke', lambda k: k.revoke(k, created=K.dt(K.T0 + 7)))):
+            r.states += 1
+            r.transitions += 1
+            bare_rsa = K.pgpy_secret(rraw)
+            try:
+                fn(bare_rsa)
+                r.outcomes['no-identity:done'] += 1
+                r.viol('precondition', {'kind': 'no-identity', 'op': name, 'key': 'rsa'}, case, 'an RSA key without any identity performed %s' % name)
+            except Exception:
+                r.outcomes['no-identity:refused'] += 1
         r.states += 1
         r.transitions += 1
         try:
